@@ -5,10 +5,12 @@
    (3) every alternation that a repeat can enter more than once has pairwise exclusive alternatives (from no
        position can two of them both consume), in every regenerated pattern except the four listed overlaps - the
        condition whose failure is the classic source of exponential backtracking.
+   (4) no repeat that can iterate more than once has a body that can end in an unbounded repeat of a class and begin with a
+       character of the same class - the shape (x+)+ - in every regenerated pattern except the seven listed ones.
    The growth rate itself (pumped inputs, CPU time of the real converter, step counts of the model) is decided by
    the oracle. *)
 From Coq Require Import ZArith List Bool Lia Arith.
-From Verif Require Import PyStr Rx RxSpec RxAnalysis RxExcl RxCost RxCostProofs Loop LoopProofs UnicodeGen RxGen.
+From Verif Require Import PyStr Rx RxSpec RxAnalysis RxExcl RxNest RxCost RxCostProofs Loop LoopProofs UnicodeGen RxGen.
 Import ListNotations.
 Local Open Scope nat_scope.
 
@@ -51,7 +53,48 @@ Example C07_label_is_checked :
   excl U false (RRep true 0 None (RAlt (RLit 92%Z) (RIn true [CLit 91%Z]))) = false.
 Proof. split; vm_compute; reflexivity. Qed.
 
+(* (4) repeats that end where they begin *)
+Theorem C07_character_classes_disjoint : forall a b ch, disjoint2 U a b = true -> cs_mem U a ch = true -> cs_mem U b ch = true -> False.
+Proof. exact (disjoint2_sound U). Qed.
+
+Theorem C07_iterations_have_one_boundary : forall g lo hi r1, nest U (RRep g lo hi r1) = true -> multi hi = true ->
+  forall fs ch, In fs (ends_open r1) -> existsb (fun s => cs_mem U s ch) fs = true -> in_first U r1 ch = true -> False.
+Proof. exact (nest_rep_sound U). Qed.
+
+(* the patterns in which an iteration can end in an open repeat that the next iteration could continue; each is pumped by the
+   oracle on every run (every repeat of every pattern is):
+   - block_parser__STRICT_BLOCK_QUOTE: the iteration ends in (?:\n|$): behind [^\n]* only the end anchor lets it end without a line feed, and nothing follows the end
+   - plugins_table__NP_TABLE_PATTERN: as above: .*(?:\n|$)
+   - plugins_table__TABLE_PATTERN: as above: [ \t]*(?:\n|$)
+   - directives__fenced__directive_re: (?:[^\n]*\n+)* is the last item of the rule, its continuation never fails
+   - plugins_def_list__DEF_PATTERN: blank-line runs inside and behind the continuation lines; last item of the rule
+   - plugins_footnotes__REF_FOOTNOTE: the continuation lines begin with a back-reference (first set unknown) and end in \n+; last item of the rule
+   - block__indent_code: the repeat is the last item of the rule, its continuation never fails (also listed above) *)
+Definition known_nested : list str :=
+  [ [98; 108; 111; 99; 107; 95; 112; 97; 114; 115; 101; 114; 95; 95; 83; 84; 82; 73; 67; 84; 95; 66; 76; 79; 67; 75; 95; 81; 85; 79; 84; 69]%Z;
+    [112; 108; 117; 103; 105; 110; 115; 95; 116; 97; 98; 108; 101; 95; 95; 78; 80; 95; 84; 65; 66; 76; 69; 95; 80; 65; 84; 84; 69; 82; 78]%Z;
+    [112; 108; 117; 103; 105; 110; 115; 95; 116; 97; 98; 108; 101; 95; 95; 84; 65; 66; 76; 69; 95; 80; 65; 84; 84; 69; 82; 78]%Z;
+    [100; 105; 114; 101; 99; 116; 105; 118; 101; 115; 95; 95; 102; 101; 110; 99; 101; 100; 95; 95; 100; 105; 114; 101; 99; 116; 105; 118; 101; 95; 114; 101]%Z;
+    [112; 108; 117; 103; 105; 110; 115; 95; 100; 101; 102; 95; 108; 105; 115; 116; 95; 95; 68; 69; 70; 95; 80; 65; 84; 84; 69; 82; 78]%Z;
+    [112; 108; 117; 103; 105; 110; 115; 95; 102; 111; 111; 116; 110; 111; 116; 101; 115; 95; 95; 82; 69; 70; 95; 70; 79; 79; 84; 78; 79; 84; 69]%Z;
+    [98; 108; 111; 99; 107; 95; 95; 105; 110; 100; 101; 110; 116; 95; 99; 111; 100; 101]%Z ].
+
+Theorem C07_no_repeat_ends_where_it_begins_or_listed :
+  forallb (fun e : str * rx => nest U (snd e) || existsb (str_eqb (fst e)) known_nested) rx_table = true.
+Proof. vm_compute; reflexivity. Qed.
+
+(* non-vacuity: (x+)+ and a URL body with a repeated alternative that is itself a run fail; the label pattern passes *)
+Example C07_nested_is_checked :
+  nest U (RRep true 1 None (RRep true 1 None (RLit 120%Z))) = false /\
+  nest U (RRep true 1 None (RAlt (RRep true 1 None (RIn true [CLit 40%Z; CLit 41%Z])) (RSeq (RLit 40%Z) (RLit 41%Z)))) = false /\
+  nest U rx_helpers__INLINE_LINK_LABEL_RE = true /\
+  length (filter (fun e : str * rx => negb (nest U (snd e))) rx_table) = 7.
+Proof. repeat split; vm_compute; reflexivity. Qed.
+
 Print Assumptions C07_scanner_iterations_linear.
 Print Assumptions C07_cost_engine_is_the_engine.
 Print Assumptions C07_exclusive_alternatives.
 Print Assumptions C07_all_patterns_exclusive_or_listed.
+Print Assumptions C07_character_classes_disjoint.
+Print Assumptions C07_iterations_have_one_boundary.
+Print Assumptions C07_no_repeat_ends_where_it_begins_or_listed.
